@@ -400,6 +400,11 @@ func dropHistServer(spin bool) {
 	}
 }
 
+// histReplyBudget: an operation of a history that is not answered within
+// this time ends the run without a verdict (machine stall) unless the server
+// then proves to be stuck (see historyCase).
+const histReplyBudget = 12 * time.Second
+
 // runHistory executes the program with one goroutine per client and returns
 // the observations, the commands appended to the log during the run and the
 // final visible dataset.
@@ -453,7 +458,7 @@ func runHistory(p hprogram) (obs [][]hobs, log [][]string, final *t38.Dump, err 
 							break
 						}
 						var v t38.Value
-						v, e = c.Recv()
+						v, e = c.RecvTimeout(histReplyBudget)
 						vs = append(vs, v)
 					}
 					r := time.Since(base)
@@ -465,7 +470,11 @@ func runHistory(p hprogram) (obs [][]hobs, log [][]string, final *t38.Dump, err 
 					continue
 				}
 				s := time.Since(base)
-				v, e := c.Do(w...)
+				e := c.Send(w...)
+				var v t38.Value
+				if e == nil {
+					v, e = c.RecvTimeout(histReplyBudget)
+				}
 				r := time.Since(base)
 				if e != nil {
 					errs[ci] = fmt.Errorf("client %d op %d %s: %v", ci, oi, t38.CmdString(w), e)
@@ -1215,7 +1224,7 @@ func historyCase(t ev.Failer, c *ev.Collector, p hprogram, porcu bool) {
 					if serr := pc.Send(probe...); serr != nil {
 						break
 					}
-					if _, rerr := pc.RecvTimeout(90 * time.Second); rerr == t38.ErrHang {
+					if _, rerr := pc.RecvTimeout(45 * time.Second); rerr == t38.ErrHang {
 						hung = probe[0]
 						break
 					}
@@ -1225,7 +1234,7 @@ func historyCase(t ev.Failer, c *ev.Collector, p hprogram, porcu bool) {
 		}
 		dropHistServer(p.Spin)
 		if hung != "" {
-			c.Fail(t, "server-hang", fmt.Sprintf("after a concurrent history ended with %q the server did not answer %s on a fresh connection within 90 s although no client was active any more", err.Error(), hung), historyReplay{Program: p})
+			c.Fail(t, "server-hang", fmt.Sprintf("after a concurrent history ended with %q the server did not answer %s on a fresh connection within 45 s although no client was active any more", err.Error(), hung), historyReplay{Program: p})
 		}
 		return
 	}
